@@ -287,7 +287,8 @@ func init() {
 	// hist <n> <ops>   '/'-separated:
 	//   D<nonces>[@f]  proposalsForExecution          -> s:<nonces> | e
 	//   S<id>[@f] / F<id>[@f]  outcome of the execution started by delivery #id recorded (executed / failed) -> d
-	//   T<id>          that execution is lost (timeout, crash): nothing recorded -> d
+	//   T<id>          that execution never gets its signatures: the real watchExecution runs into its signing
+	//                  time-out (nothing is recorded) -> d
 	//   R<nonces>[@f]  FilterDeposits over deposits with these nonces (all matching the request) -> r:<nonces>
 	//   an operation that would block on propMutex -> hang (not called)
 	//   => per op `<result>~<statuses of nonces 0..n-1>`, '/'-separated, then `#free|held`
@@ -334,7 +335,13 @@ func init() {
 					started[id] = nil
 				}
 			case 'T':
+				// the watcher of that execution never gets its signatures: the REAL signing time-out path runs
 				if id := int(u64(arg)); id < len(started) {
+					if started[id] != nil {
+						if r := c17Timeout(b.exe, started[id]); r != "t" {
+							res = r
+						}
+					}
 					started[id] = nil
 				}
 			case 'R':
@@ -580,6 +587,23 @@ func genC17(g *G) {
 				}
 			}
 		}
+	}
+	// ---- an executed (or in-flight) record in front of, behind and between the proposals of a delivery that hits ONE
+	//      store fault at every call position (each kind): the records of the other proposals must not move
+	for _, setup := range []string{"D0/S0", "D0/S0/D2/S1", "D1/S0", "D0"} {
+		for _, del := range []string{"0,1", "1,0", "0,1,2", "2,1,0"} {
+			for k := 0; k < 2*len(strings.Split(del, ",")); k++ {
+				g.Emit("hist", "3", setup+"/D"+del+"@"+c3SingleFault(g, k)+"/R0,1,2/D0,1,2")
+			}
+		}
+	}
+	// ---- a stale session: released by a retry while stuck, re-delivered, executed by the newer session; then the
+	//      old watcher runs into its signing time-out (real code path). Any later retry / delivery must leave the
+	//      executed record alone.
+	for _, ns := range []string{"0", "1,2", "0,1,2"} {
+		g.Emit("hist", "3", "D"+ns+"/R"+ns+"/D"+ns+"/S1/T0/R0,1,2/D0,1,2")
+		g.Emit("hist", "3", "D"+ns+"/T0/R"+ns+"/D"+ns+"/S1/R0,1,2/D0,1,2")
+		g.Emit("hist", "3", "D"+ns+"/R"+ns+"/D"+ns+"/T0/S1/T1/D0,1,2")
 	}
 	// ---- liveness through the exported API only (few cases: a regression costs 8 s per hanging case)
 	for _, c := range [][2]string{{"m", "1"}, {"m", "01"}, {"mm", "001"}, {"fe", "-"}, {"mpm", "0001"}, {"-", "-"}} {
